@@ -146,7 +146,7 @@ func ParseContractFile(path string) (*ContractFile, error) {
 			}
 			switch kind {
 			case "requires", "ensures", "modifies", "invariant", "decreases", "local", "terminates", "inline",
-				"recovers", "nopanic", "fresh", "lemma", "assert", "pure", "split", "appends", "copies", "opaque", "panics", "trusted", "variant", "unroll", "calls_only", "lock", "ghost", "known":
+				"recovers", "nopanic", "fresh", "lemma", "assert", "pure", "split", "appends", "appendsAll", "copies", "opaque", "panics", "trusted", "variant", "unroll", "calls_only", "lock", "ghost", "known":
 				cl.Kind = kind
 				cl.Text = rest
 				cur.Clauses = append(cur.Clauses, cl)
@@ -370,6 +370,9 @@ func out(w interface{}) []byte      { return nil }
 func seq(x interface{}) []interface{} { return nil }
 func misc(x interface{}) int        { return 0 }
 func __appends(s interface{}, x interface{}) {}
+func __appendsAll(s interface{}, xs interface{}) {}
+func sameSeq(a, b []interface{}) bool { return false }
+func isFresh(x interface{}) bool { return false }
 func __copies(dst interface{}, src interface{}, n int) {}
 func ghostInt(x interface{}, name string) int { return 0 }
 func ghostBool(x interface{}, name string) bool { return false }
@@ -485,6 +488,12 @@ func (cf *ContractFile) Generate() (string, error) {
 					return "", fmt.Errorf("%s:%d: %v", fc.File, cl.Line, err)
 				}
 				stmt = fmt.Sprintf("__copies(%s)", e)
+			case "appendsAll":
+				e, err := RewriteExpr(cl.Text)
+				if err != nil {
+					return "", fmt.Errorf("%s:%d: %v", fc.File, cl.Line, err)
+				}
+				stmt = fmt.Sprintf("__appendsAll(%s)", e)
 			case "appends":
 				e, err := RewriteExpr(cl.Text)
 				if err != nil {
